@@ -39,6 +39,10 @@ pub struct FlowScript {
     /// closes (a slow consumer: the bytes wait in the relay's buffers when the close arrives)
     #[serde(default)]
     pub slow_reader_ms: u16,
+    /// before the closing step the flow stays idle this long and must then still carry bytes in both directions
+    /// (a flow is not a request/response pair: it lives as long as its two ends keep it open)
+    #[serde(default)]
+    pub idle_ms: u16,
 }
 
 #[derive(Clone, Debug)]
@@ -194,6 +198,20 @@ pub fn run_flow(client_port: u16, sc: &FlowScript, tag: u64) -> (FlowReport, Opt
             }
             f.check_content()?;
         }
+        if sc.idle_ms > 0 {
+            f.sync("before the idle period")?;
+            std::thread::sleep(Duration::from_millis(sc.idle_ms as u64));
+            f.app_write(137).map_err(|mut e| {
+                e.msg = format!("after {} ms without traffic: {}", sc.idle_ms, e.msg);
+                e
+            })?;
+            f.tgt_write(211)?;
+            f.sync("after the idle period").map_err(|mut e| {
+                e.sig = format!("{}-after-idle", e.sig);
+                e.msg = format!("the flow was idle for {} ms, then: {}", sc.idle_ms, e.msg);
+                e
+            })?;
+        }
         // nothing may be in flight towards the side that is about to close, otherwise its loss would be legitimate
         f.sync("before the closing step")?;
         f.check_single_dial()?;
@@ -271,7 +289,7 @@ pub fn run_flow(client_port: u16, sc: &FlowScript, tag: u64) -> (FlowReport, Opt
 
 /// A plain echo-style canary: SOCKS5, `n` bytes up, `n` bytes down, target closes. Ok(()) when byte-exact.
 pub fn canary(client_port: u16, n: u32, tag: u64) -> Result<(), FlowFail> {
-    let sc = FlowScript { hs: Hs::Socks5V4, first: n, ops: vec![Op::TargetWrite(n), Op::Sync], ending: Ending::TargetCloses(7), slow_reader_ms: 0 };
+    let sc = FlowScript { hs: Hs::Socks5V4, first: n, ops: vec![Op::TargetWrite(n), Op::Sync], ending: Ending::TargetCloses(7), slow_reader_ms: 0, idle_ms: 0 };
     let (rep, _) = run_flow(client_port, &sc, tag);
     match rep.fail {
         Some(f) => Err(f),
